@@ -191,6 +191,10 @@ fn main() {
         "accuracy" => {
             let mut run = Runner::new(&args);
             accuracy::run(&mut run, args.req("data"), args.num("seed", 1), args.num("batches", 1), args.num("size", 200) as usize);
+            let every = args.num("strata-every", 0) as usize;
+            if every > 0 {
+                accuracy::run_strata(&mut run, args.req("data"), args.num("seed", 1), args.num("strata-size", 800) as usize, every, args.num("strata-phase", 0) as usize);
+            }
             run.finish();
         }
         "names" => {
